@@ -82,6 +82,8 @@ class WfDef(object):
                 return {p: self._e("result().get(t" + str(k) + "_" + p + ")")}
             return {p: self._e("result().get('t" + str(k) + "_" + p + "')")}
         var, kind = p
+        if isinstance(kind, tuple) and kind[0] == "expr":
+            return {var: self._e(kind[1])}
         if kind == "inc":
             return {var: self._e("ctx()." + var + " + 1")}
         if isinstance(kind, tuple) and kind[0] == "const":
@@ -260,6 +262,21 @@ def _catalogue():
         output=["a", "b"])
     # D21 two branches whose first tasks may report paused/pending (A5 harness)
     add("D21", {"s": T([("ok", [], ["a", "b"])]), "a": T([("ok", [], ["d"])]), "b": T([("ok", [], ["c"])]), "c": T(), "d": T()})
+    # D19 a multiply-referenced task inside a self loop (all arrivals share one route), fed by two branches
+    add("D19", {"init": T([("any", [], ["fast", "slow"])]), "fast": T([("ok", ["who"], ["work"])]), "slow": T([("ok", ["who"], ["work"])]),
+                "work": T([("c0", [], ["work"]), ("c1", [], ["done"])]), "done": T()}, vars={"who": "nobody"})
+    # D22 a dict-valued variable re-published with an overlapping nested key by two branches
+    add("D22", {"s": T([("any", [], ["a", "c"])]), "a": T([("ok", [("cfg", ("const", {"level": 1}))], ["b"])]),
+                "c": T([("ok", [("cfg", ("const", {"level": 2, "extra": [1]}))], ["e"])]),
+                "b": T([("ok", [("seen", ("expr", "ctx().cfg.level"))], ["f"])]), "e": T(), "f": T()},
+        vars={"cfg": {"level": 0, "base": {"k": 1}}}, output=["seen", "cfg"])
+    # D23 with-items task revisited through a remediation loop (the staged entry of a failed with-items task is kept)
+    add("D23", {"init": T([("ok", [], ["w"])]), "w": T([("fail", ["pf"], ["r"]), ("ok", [], ["z"])], items=2, conc=1),
+                "r": T([("ok", ["pr"], ["w"])]), "z": T()},
+        inputs={"xs": [10, 11]}, input_decl=["xs"])
+    # D25 fan-out whose transitions are not written in alphabetical order of their targets, each publishing
+    add("D25", {"s": T([("any", ["x"], ["zz"]), ("any", ["y"], ["mm", "aa"])]), "zz": T([("ok", [], ["k"])]), "mm": T(), "aa": T([("ok", [], ["k"])]), "k": T()},
+        output=["x", "y"])
     # D06p split routes with publishes
     add("D06p", {"s": T([("any", ["x"], ["a", "b"])]), "a": T([("any", ["y"], ["m"])]),
                  "b": T([("any", ["x"], ["m"])]), "m": T([("any", ["w"], ["n"])]), "n": T()},
